@@ -290,6 +290,8 @@ CHECKS = {
                   thorough=dict(shards=16, args=['--mode', 'exec', '--prop', 'C03']), oracles=OWN),
               seq('pipeline', 'seq17', quick=dict(shards=16, args=['--mode', 'lazy', '--prop', 'C03']),
                   thorough=dict(shards=16, args=['--mode', 'lazy', '--prop', 'C03']), oracles=OWN),
+              seq('exec_seq', 'seq17', quick=dict(shards=1, args=[]), thorough=dict(shards=1, args=[]),
+                  oracles=r'^(ledger:|alloc:|asan:|crash:|exec:call-xor-drop)'),
               mc('handoff', 'mc-asan', quick=dict(P=99), thorough=dict(P=99), oracles=OWN),
               mc('chain', 'mc-asan', quick=dict(P=3, S=1), thorough=dict(P=4, S=1), oracles=OWN),
               mc('shared', 'mc-asan', quick=dict(P=2, S=1, cells='set=(value|drop),keep=0'), thorough=dict(P=3, S=1), oracles=OWN),
